@@ -354,6 +354,12 @@ def check_extend_cli(chk):
             args += " --remove-duplicate"
         if deplete:
             args += " --append-depletion"
+        desorb = [o for o in ("thermal", "photon", "cosmic-ray") if rng.random() < 0.4]
+        if n == 0:      # depletion followed by desorption of the species it created, always
+            deplete, desorb, keep, remove = True, ["thermal", "cosmic-ray"], [], []
+            args = "in.naunet out.naunet --append-depletion" + (" --remove-duplicate" if dedup else "")
+        for o in desorb:
+            args += f" --append-{o}-desorption"
         cwd = os.getcwd()
         os.chdir(d)
         try:
@@ -388,6 +394,10 @@ def check_extend_cli(chk):
         if deplete:
             sp = sorted({s for r in cur for s in r["re"] + r["pr"]})
             want += [((s,), ("#" + s,)) for s in sp if not s.endswith(("+", "-"))]
+        # each desorption option returns every surface species present at that point (also the ones depletion just created)
+        surface = sorted({s for re_, pr_ in want for s in re_ + pr_ if s.startswith("#")})
+        for o in desorb:
+            want += [((s,), (s[1:],)) for s in surface]
         outp = d / "out.naunet"
         if rc != 0 or not outp.exists():
             chk.violation({"kind": "extend-failed", "rc": rc}, f"`naunet extend {args}` failed: {tester.io.fetch_error()[:300]}", args=args)
@@ -469,8 +479,9 @@ def canon_species(n):
 
 def dict_semantics(lst, mode=None):
     """what a Python dict keyed by Reaction objects does in the default mode: a new reaction is compared (==) only with
-    stored keys whose hash is equal; Reaction.__hash__ hashes the species in *name* order"""
-    hk = lambda r: (tuple(canon_species(x) for x in sorted(r["re"])), tuple(canon_species(x) for x in sorted(r["pr"])))
+    stored keys whose hash is equal (the multisets of reactants and products, whatever their spelling and order), in the
+    order in which those keys were inserted"""
+    hk = lambda r: (tuple(sorted(canon_species(x) for x in r["re"])), tuple(sorted(canon_species(x) for x in r["pr"])))
     reps, dup, matched = [], [], []
     for i, r in enumerate(lst):
         hit = next((k for k, j in enumerate(reps) if hk(lst[j]) == hk(r) and pair_equiv(lst[j], r, mode)), None)
@@ -498,6 +509,9 @@ def run_c15(argv):
         [R(["H", "CO"], ["H2"], 100), R(["CO", "H"], ["H2"], 999), R(["H", "CO"], ["H2"], 102)],           # F14 witness
         [R(["E", "H+"], ["H"], 100), R(["e-", "H+"], ["H"], 100)],                                         # F16 witness
         [R(["H", "H"], ["H2"], 100), R(["H", "H"], ["H2"], 100, 10.0), R(["H", "H"], ["H2"], 101), R(["H", "H"], ["H2"], 100)],
+        # an untyped reaction (KROME, or type 999 in a native file) followed by its typed copies, and the other way round
+        [R(["H", "CO"], ["H2"], 999), R(["CO", "H"], ["H2"], 100)],
+        [R(["C", "O"], ["CO"], 999), R(["C", "O"], ["CO"], 101), R(["O", "C"], ["CO"], 101), R(["H", "H"], ["H2"], 100), R(["H", "H"], ["H2"], 999)],
     ]
     for n in range(ncases):
         lst = corpus[n] if n < len(corpus) else gen_dup_list(rng, tier)
@@ -560,7 +574,7 @@ def run_c15(argv):
                 t_want_dup = [i for i in range(len(typed)) if any(pair_equiv(typed[j], typed[i], None) for j in range(i))]
                 t_want_first = [i for i in range(len(typed)) if not any(pair_equiv(typed[j], typed[i], None) for j in range(i))
                                 and any(pair_equiv(typed[i], typed[j], None) for j in range(i + 1, len(typed)))]
-                if tdup == t_want_dup and [r.idxfromfile for r in tfirst] == t_want_first:
+                if tdup == t_want_dup and [r.idxfromfile for r in tfirst] == t_want_first and (dupidx, first_idx) == dict_semantics(lst, mode):
                     chk.violation({"kind": "default-mode-dict-semantics", "cause": "untyped"},
                                   f"default mode on a list that mixes typed and untyped (UNKNOWN) reactions: reported {dupidx[:12]}…, "
                                   f"equivalent-to-earlier are {want_dup[:12]}… (exact once the untyped reactions are left out)",
